@@ -303,10 +303,51 @@ def _failing_variant(rng, need, p):
     return p[: max(2, need - 1)]
 
 
+def crafted_msm(rng, ident=None):
+    """An MSM payload with seeded *small* masks, laid out from the standard
+    header (12+12+30+1+3+7+2+2+1+3 = 73 bits, then the 64-bit satellite mask,
+    the 32-bit signal mask and the nsat*nsig cell mask), zero padded.  Small
+    shapes make different messages share mask values while differing in shape
+    or constellation -- the inputs on which a badly keyed cache shows."""
+    msm_ids = _index()["fam"]["msm"]
+    ident = ident if ident is not None and ident in msm_ids else rng.choice(msm_ids)
+    nsat = rng.choice((1, 1, 2, 2, 3))
+    nsig = rng.choice((1, 2, 2, 3))
+    sats = sorted(rng.sample(range(1, 9), nsat))  # low satellite ids: shared by all constellations
+    sigs = sorted(rng.sample((2, 3, 8, 9, 15, 22), nsig))
+    satmask = 0
+    for x in sats:
+        satmask |= 1 << (64 - x)
+    sigmask = 0
+    for x in sigs:
+        sigmask |= 1 << (32 - x)
+    ncell = nsat * nsig
+    cellmask = rng.choice(((1 << ncell) - 1, rng.getrandbits(ncell) | 1, 0b110100 & ((1 << ncell) - 1) or 1))
+    v = int(ident)
+    v = (v << 12) | rng.choice((0, 1, 2003))
+    v = (v << 30) | rng.getrandbits(20)
+    v = (v << 1) | 0
+    v = (v << 3) | 0
+    v = (v << 7) | 0
+    v = (v << 2) | 0
+    v = (v << 2) | 0
+    v = (v << 1) | 0
+    v = (v << 3) | 0
+    v = (v << 64) | satmask
+    v = (v << 32) | sigmask
+    v = (v << ncell) | cellmask
+    nbits = 73 + 64 + 32 + ncell
+    total = 400 * 8
+    return (v << (total - nbits)).to_bytes(400, "big")
+
+
 def _make_op(rng, ident_pool, fail_p, labelmsm=None):
     ident = rng.choice(ident_pool)
     need, p = _payload(rng, ident)
     lm = labelmsm if labelmsm is not None else rng.choice((1, 2))
+    if corpus.family(ident) == "msm" and rng.random() < 0.5:
+        p = crafted_msm(rng, ident if rng.random() < 0.5 else None)
+        need = len(p)
     if rng.random() < 0.07:
         # a type without definition (stub): undefined numbers next to defined families,
         # reserved numbers inside the MSM block, unimplemented 4076 sub-types
@@ -335,6 +376,10 @@ def _make_op(rng, ident_pool, fail_p, labelmsm=None):
         if rng.random() < 0.1:
             fr = wire.flip_bits(fr, [rng.randrange(24, len(fr) * 8)])
         frames.append(fr.hex())
+        if rng.random() < 0.15:
+            # the same frame again through the same reader: verbatim, or with only its CRC bytes damaged
+            fr2 = fr if rng.random() < 0.4 else wire.flip_bits(fr, [rng.randrange((len(fr) - 3) * 8, len(fr) * 8)])
+            frames.append(fr2.hex())
         if rng.random() < 0.2:
             frames.append(bytes.fromhex(W.gen_nmea(rng)[1]).hex())
     o = {"validate": rng.choice((0, 1, 1)), "quitonerror": rng.choice((0, 1, 2)), "labelmsm": lm, "parsed": rng.random() < 0.9}
